@@ -908,13 +908,51 @@ func errPhiNet(fn *ssa.Function) (map[*ssa.Phi]bool, []*ssa.Phi) {
 	return net, order
 }
 
-func isErrorGlobal(v ssa.Value) bool {
-	u, ok := v.(*ssa.UnOp)
-	if !ok || u.Op != token.MUL {
+func isErrorGlobal(v ssa.Value) bool { return isNonNilError(v, 0) }
+
+// isNonNilError: a package-level error value, a freshly made error (errors.New / fmt.Errorf), or the result of an unexported
+// helper every exit of which returns such a value.
+func isNonNilError(v ssa.Value, depth int) bool {
+	if u, ok := v.(*ssa.UnOp); ok && u.Op == token.MUL {
+		_, isG := u.X.(*ssa.Global)
+		return isG // a package-level error value
+	}
+	if mi, ok := v.(*ssa.MakeInterface); ok {
+		_, isConst := mi.X.(*ssa.Const)
+		return !isConst
+	}
+	idx := 0
+	cv := v
+	if e, ok := cv.(*ssa.Extract); ok {
+		idx, cv = e.Index, e.Tuple
+	}
+	cl, ok := cv.(*ssa.Call)
+	if !ok || depth > 3 {
 		return false
 	}
-	_, isG := u.X.(*ssa.Global)
-	return isG // a package-level error value
+	if g := cl.Common().StaticCallee(); g != nil && g.Pkg != nil {
+		if k := g.Pkg.Pkg.Path() + "." + g.Name(); k == "errors.New" || k == "fmt.Errorf" {
+			return true
+		}
+	}
+	g := eng.TransparentCallee(cl)
+	if g == nil || len(g.Blocks) == 0 {
+		return false
+	}
+	n := 0
+	for _, b := range g.Blocks {
+		for _, in := range b.Instrs {
+			r, ok := in.(*ssa.Return)
+			if !ok || idx >= len(r.Results) {
+				continue
+			}
+			n++
+			if !isNonNilError(r.Results[idx], depth+1) {
+				return false
+			}
+		}
+	}
+	return n > 0
 }
 
 // keepsAccumulator: v is the error result of a call of an unexported same-package helper that is handed the accumulated error
